@@ -62,6 +62,7 @@ def run(chk: Check) -> None:
     run_section_aliasing(chk, ix)
     run_precedence_order(chk, ix)
     run_cli_strict(chk, ix)
+    run_replayed_lists_reset(chk, ix)
     O = options_attrs(ix)
     mopt = ix.module("mypy.options")
     mcfg = ix.module("mypy.config_parser")
@@ -510,3 +511,25 @@ def run_cli_strict(chk: Check, ix) -> None:
             r9.violation(key, po.loc(c), f"the step is taken when `{norm(neg[0])}` is false")
         else:
             r9.ok(key, po.loc(c), "guard: " + " and ".join(norm(t) for t in pos))
+
+
+def run_replayed_lists_reset(chk: Check, ix) -> None:
+    """R17.10: a list option that apply_changes replays on top of the parent's result is reset by every section."""
+    r = chk.rule("R17.10", "Options.apply_changes builds a module's options by copying the parent's state (including the parent's disable_error_code / enable_error_code lists and the sets already computed from them) and then replaying `new_options.<list>` onto those sets. A section that does not set such a list must therefore carry an empty one, or the copy replays the list of whatever level it was cloned from a second time, after the levels in between: config_parser.parse_section stores `[]` for every list that apply_changes iterates, so precedence (later / more specific beats earlier) holds across three levels too", floor=2)
+    ac = ix.func("mypy.options.Options.apply_changes")
+    replayed = sorted({lp.iter.attr for lp in ast.walk(ac.node) if isinstance(lp, ast.For) and isinstance(lp.iter, ast.Attribute) and norm(lp.iter.value) == "new_options"})
+    if len(replayed) < 2:
+        raise AnalysisError(f"Options.apply_changes: lists replayed onto the copied state: {replayed} (expected disable_error_code and enable_error_code)")
+    ps = ix.func("mypy.config_parser.parse_section")
+    defaults = set()
+    for i in ast.walk(ps.node):
+        if isinstance(i, ast.If) and isinstance(i.test, ast.Compare) and len(i.test.ops) == 1 and isinstance(i.test.ops[0], ast.NotIn) and isinstance(i.test.left, ast.Constant) and norm(i.test.comparators[0]) == "results":
+            for a in i.body:
+                if isinstance(a, ast.Assign) and isinstance(a.targets[0], ast.Subscript) and norm(a.targets[0].value) == "results" and isinstance(a.value, ast.List) and not a.value.elts:
+                    defaults.add(i.test.left.value)
+    for name in replayed:
+        key = f"parse_section stores an empty default for the replayed list `{name}`"
+        if name in defaults:
+            r.ok(key, ps.loc())
+        else:
+            r.violation(key, ps.loc(), f"apply_changes replays `new_options.{name}`, but a section that does not set `{name}` gets no empty list: it inherits the list of the level it was cloned from and replays it after the levels in between ([mypy] disables X, [mypy-a.*] re-enables X, [mypy-a.b] only enables Y: a.b loses X again, so the global section beats the wildcard)")
